@@ -399,6 +399,16 @@ class Trace:
             'scheduler_observation_queue': len(self.queue),
         }
 
+    def final_queries(self):
+        """the queries are also judged in the state in which start()/resume() returned"""
+        if self.cluster_only or self.status != 'completed':
+            return
+        t = istep(self.env.now)
+        saved = self.snaps.get(t)
+        self.end_of_step(t - 1 if t > 0 else -1)
+        if saved is not None:
+            self.snaps[t] = saved
+
     def end_of_step(self, t):
         """called before the first event of a later timestep: state here == beginning of step t+1"""
         if self.cluster_only:
